@@ -206,4 +206,4 @@ def run_case(c):
 
 def stages(tier):
     return [HypStage("unsign", lambda t: cases(t), run_case, {"quick": 800, "thorough": 25000},
-                     budget_s={"quick": 100, "thorough": 900})]
+                     budget_s={"quick": 300, "thorough": 900})]
